@@ -445,6 +445,9 @@ class Exec:
             return [(st, st.env[n])]
         if self.spec and n == 'result' and 'result' in st.meta:
             return [(st, st.meta['result'])]
+        if n in getattr(self.c, 'consts', {}):
+            # module-level sentinel objects named by the contract: distinct opaque values (never numbers)
+            return [(st, Val.fn(z3.IntVal(-100 - sorted(self.c.consts).index(n))))]
         if n in self.ct.classes:
             return [(st, Val.cls(z3.IntVal(self.ct.cid(n))))]
         if n in ('inf',):
@@ -926,6 +929,8 @@ class Exec:
         txt = ast.unparse(node)
         if txt in ('numbers.Number',):
             return [(st, Val.cls(z3.IntVal(-1)))]
+        if txt == 'sys.maxsize':
+            return [(st, Z.mk_i(2 ** 63 - 1))]
         out = []
         for (s, obj) in self.ev(node.value, st):
             out.extend(self.getattr(s, obj, node.attr, node))
